@@ -339,7 +339,7 @@ def existsOp (path : String) : EM String := do
 
 def readFile (path : String) : EM String := do
   let h ← nextHelperVar
-  varAssignment h s!"$(cat \"{path}\")" false
+  varAssignment h s!"$(cat -- \"{path}\")" false
   varEvaluation h false
 
 /-! ### transpiler: expressions -/
